@@ -382,6 +382,8 @@ def run(ctx):
                   f"`{U(direct[0].stmt)[:80]}` writes self._frequencies directly, bypassing the negative-contents "
                   "guard of the setter (a negative factor / operand is then accepted without free arithmetics)"
                   if direct else "", fi.where)
+    from rules import c13
+    c13.check_init_through_setter(ctx, "C19.c", m)
     # frequencies setter: negative contents
     fs = HB.setters.get("frequencies")
     if fs is None:
